@@ -53,13 +53,15 @@ def encode(method, data):
     if method == "lzma":
         raw = lzma.compress(data, format=lzma.FORMAT_ALONE)
         return b"\x03\x01\x01", raw[:5], raw[13:]
-    if method == "lzma2":
-        raw = lzma.compress(data, format=lzma.FORMAT_RAW, filters=[{"id": lzma.FILTER_LZMA2, "dict_size": 1 << 20}])
-        return b"\x21", bytes([16]), raw
+    if method == "lzma2" or method.startswith("lzma2:"):
+        # LZMA2 property byte p: dictionary size (2 | (p & 1)) << (p // 2 + 11)
+        p = int(method.split(":")[1]) if ":" in method else 16
+        raw = lzma.compress(data, format=lzma.FORMAT_RAW, filters=[{"id": lzma.FILTER_LZMA2, "dict_size": (2 | (p & 1)) << (p // 2 + 11), "preset": 0}])
+        return b"\x21", bytes([p]), raw
     raise ValueError(method)
 
 
-def write7z(entries, method="copy", solid=True, with_attrs=True, with_crc=True, group=None):
+def write7z(entries, method="copy", solid=True, with_attrs=True, with_crc=True, group=None, encode_header=False):
     """entries: [(name, bytes | None)]: None = directory, b'' = empty file (emptyStream + emptyFile, as 7-Zip writes it).
     solid: one folder for everything; group=n: solid blocks of n files; else one folder per file."""
     streams = [(n, d) for n, d in entries if d]
@@ -106,6 +108,14 @@ def write7z(entries, method="copy", solid=True, with_attrs=True, with_crc=True, 
         h += b"\x15" + number(len(attrs)) + attrs
     h += b"\x00\x00"
     body = b"".join(packed)
+    if encode_header:
+        # EncodedHeader (what 7-Zip writes by default): the header itself is an LZMA-coded pack stream after the data; the end
+        # header is 0x17 + the StreamsInfo (PackInfo, UnpackInfo) that locates and decodes it
+        cid, props, ph = encode("lzma", bytes(h))
+        eh = b"\x17" + b"\x06" + number(len(body)) + number(1) + b"\x09" + number(len(ph)) + b"\x00"
+        eh += b"\x07\x0b" + number(1) + b"\x00" + number(1) + bytes([len(cid) | 0x20]) + cid + number(len(props)) + props
+        eh += b"\x0c" + number(len(h)) + b"\x0a\x01" + struct.pack("<I", zlib.crc32(bytes(h))) + b"\x00" + b"\x00"
+        body, h = body + ph, eh
     start = struct.pack("<QQI", len(body), len(h), zlib.crc32(bytes(h)))
     return b"7z\xbc\xaf\x27\x1c\x00\x04" + struct.pack("<I", zlib.crc32(start)) + start + body + bytes(h)
 
@@ -147,13 +157,19 @@ LAYOUTS += [("tar-gnu", "a.tar", lambda e: write_tar(e, "w", tarfile.GNU_FORMAT)
             ("7z-copy-blocks-of-2", "a.7z", lambda e: write7z(e, "copy", group=2)), ("7z-lzma2-blocks-of-2", "a.7z", lambda e: write7z(e, "lzma2", group=2)),
             ("7z-lzma-blocks-of-3", "a.7z", lambda e: write7z(e, "lzma", group=3)),
             ("7z-copy-solid-noattrs-nocrc", "a.7z", lambda e: write7z(e, "copy", True, with_attrs=False, with_crc=False)),
-            ("7z-copy-folder-per-file-noattrs", "a.7z", lambda e: write7z(e, "copy", False, with_attrs=False))]
+            ("7z-copy-folder-per-file-noattrs", "a.7z", lambda e: write7z(e, "copy", False, with_attrs=False)),
+            ("7z-lzma2-solid-encoded-header", "a.7z", lambda e: write7z(e, "lzma2", True, encode_header=True)),
+            ("7z-copy-folder-per-file-encoded-header", "a.7z", lambda e: write7z(e, "copy", False, encode_header=True)),
+            ("7z-lzma-blocks-of-2-encoded-header", "a.7z", lambda e: write7z(e, "lzma", group=2, encode_header=True))]
 
 DOCS = [("a.txt", b"alpha alpha\nline two"), ("sub/b.md", b"# bravo\n\ntext"), ("c.csv", b"x,y\n1,2\n3,4\n"), ("sub/deep/d.json", b'{"k": [1, 2, 3]}'),
         ("e.html", b"<html><body><p>echo</p></body></html>"), ("f.txt", b"foxtrot " * 40)]
 NOISE = [("dir1", None), ("empty.txt", b""), (".hidden.txt", b"hidden"), ("prog.exe", b"MZ\x00\x00"), ("inner.zip", b"PK\x05\x06" + b"\x00" * 18),
          ("sub", None)]
 CORRUPT = ("broken.docx", b"this is not a docx file at all")
+
+
+BIG_SET_LAYOUTS = ("zip-deflated", "tar.gz", "7z-copy-solid", "7z-copy-folder-per-file", "7z-lzma2-blocks-of-2", "7z-lzma2-solid-encoded-header")
 
 
 def member_sets():
@@ -171,6 +187,24 @@ def member_sets():
     yield list(DOCS)                                                                      # six members: >= 3 folders / blocks
     yield [("d\u00e9j\u00e0/\u00fcber.txt", b"non-ascii name"), ("\u65e5\u672c.md", "# \u65e5\u672c".encode()), DOCS[0], ("big.txt", b"0123456789" * 3000)]
     yield [DOCS[1], DOCS[0]] + [(f"n{i}.txt", f"member {i}".encode() * (i + 1)) for i in range(9)]      # eleven members
+    # UTF-16 code units with a zero low / high byte next to each other, surrogate pairs, combining marks
+    yield [("plan\u4e00.txt", b"cjk one after ascii"), ("L\u0100tvija.md", b"# a-macron"), ("x\u2200y\u0100\u00ff.txt", b"for all"),
+           ("\u0100\u0100.txt", b"two macrons"), ("emoji\U0001f600.txt", b"non-BMP"), ("a\u0300.txt", b"combining"), DOCS[0]]
+    # base names that merely CONTAIN an archive extension, upper-case extensions, several dots, spaces
+    yield [("docs/sales.targets.txt", b"targets"), ("us.zipcodes.csv", b"zip,city\n1,a\n"), ("backup.7z.notes.txt", b"notes"), ("v1.2.tgz.readme.md", b"# readme"),
+           ("REPORT.TXT", b"upper"), ("my report (final).txt", b"spaces"), ("real.tar.gz", b"\x1f\x8b\x08"), ("x.txz.md", b"# x")]
+    # more than 8 / 16 entries with directories and zero-length files interleaved (bit vectors spanning several bytes)
+    many = []
+    for i in range(21):
+        if i % 5 == 1:
+            many.append((f"dir{i}", None))
+        elif i % 7 == 3:
+            many.append((f"dir1/empty{i}.txt", b""))
+        else:
+            many.append((f"dir1/m{i:02d}.txt", f"member number {i}\n".encode() * (1 + i % 4)))
+    yield many
+    yield [("deep/" * 12 + "n" * 90 + ".txt", b"long name"), DOCS[0]]                      # a name longer than 127 UTF-16 units
+    yield [(f"f{i:03d}.txt", f"{i}".encode()) for i in range(130)]                          # >= 128 entries: two-byte NUMBERs for counts
 
 
 def observe(r):
@@ -250,6 +284,8 @@ def matrix(layout_filter=None, sets=None, skip_recorded=True):
                 continue
             if skip_recorded and recorded(label, entries):
                 continue
+            if len(entries) > 50 and label not in BIG_SET_LAYOUTS:        # the 130-entry set: one layout per container / coder family
+                continue
             data = build(entries)
             got, err = run_archive(data, aname)
             want = expected(entries, aname)
@@ -286,8 +322,7 @@ def check_read_number():
 
 def check_bool_vector():
     for count in range(0, 20):
-        for pattern in (0x00, 0xFF, 0xA5, 0x3C):
-            data = bytes([pattern]) * 4
+        for data in (bytes(4), b"\xff" * 4, b"\xa5\x3c\x81\x0f", b"\x01\x80\x7e\xc3", bytes([0xA5]) * 4):
             r = reader_on(data)
             got = r._read_boolean_vector(count)
             want = [bool(data[i // 8] & (0x80 >> (i % 8))) for i in range(count)]
@@ -301,8 +336,8 @@ def check_bool_vector_defined():
     """Digests-style vector: allAreDefined byte, then (if 0) the bit vector"""
     for count in range(0, 18):
         for first in (0x00, 0x01, 0xFF):
-            for pattern in (0x00, 0xFF, 0xA5):
-                data = bytes([first]) + bytes([pattern]) * 4
+            for tail in (bytes(4), b"\xff" * 4, b"\xa5\x3c\x81\x0f", b"\x01\x80\x7e\xc3"):
+                data = bytes([first]) + tail
                 r = reader_on(data)
                 got = r._read_boolean_vector(count, check_defined=True)
                 if first:
@@ -469,6 +504,115 @@ def check_7z_bytes():
     return None
 
 
+TRICKY_UNITS = ("a", "\u00e9", "\u00ff", "\u0100", "\u0200", "\u4e00", "\u2200", "\uff00", "\U0001f600", "\u0301")
+
+
+def files_info_bytes(names, empty_streams, empty_files, extra_props=(), order=("es", "ef", "names", "attrs")):
+    """FilesInfo section (7zFormat.txt) after the 0x05 marker: NumFiles, then properties (id, size, data) ..., 0x00"""
+    n = len(names)
+    props = {}
+    if any(empty_streams):
+        props["es"] = (0x0E, bitvec(empty_streams))
+        ef = [f for f, e in zip(empty_files, empty_streams) if e]
+        if any(ef):
+            props["ef"] = (0x0F, bitvec(ef))
+    props["names"] = (0x11, b"\x00" + b"".join(x.encode("utf-16-le") + b"\x00\x00" for x in names))
+    props["attrs"] = (0x15, b"\x01\x00" + b"".join(struct.pack("<I", 0x10 if (e and not f) else 0x20) for e, f in zip(empty_streams, empty_files)))
+    out = number(n)
+    for key in order:
+        if key in props:
+            pid, body = props[key]
+            out += bytes([pid]) + number(len(body)) + body
+        for pid, body in extra_props:
+            if key == "names":                          # unknown / skipped properties between the known ones (kDummy, times)
+                out += bytes([pid]) + number(len(body)) + body
+    return out + b"\x00"
+
+
+def check_files_info():
+    """SevenZipReader._parse_files_info against the FilesInfo grammar: the vectors handed to _build_file_list are the header's
+    (names decoded as NUL-terminated UTF-16-LE strings -- every pair of interesting code units --, EmptyStream / EmptyFile bits for
+    up to 20 entries, properties in any order, unknown properties skipped by their size)"""
+    import itertools as _it
+    cases = []
+    for a, b in _it.product(TRICKY_UNITS, repeat=2):
+        cases.append(([f"{a}{b}.txt", f"x{b}{a}", "plain.md"], [False, False, False], [False, False, False], (), ("es", "ef", "names", "attrs")))
+    for n in (1, 7, 8, 9, 16, 17, 20):
+        es = [(i * 5 + n) % 3 == 0 for i in range(n)]
+        ef = [e and (i % 2 == 0) for i, e in enumerate(es)]
+        names = [f"d{i}/n\u0100{i}.txt" for i in range(n)]
+        cases.append((names, es, ef, (), ("es", "ef", "names", "attrs")))
+        cases.append((names, es, ef, ((0x19, b"\x00" * 3), (0x14, b"\x01\x00" + b"\x11" * 8 * n)), ("names", "es", "ef", "attrs")))
+    for names, es, ef, extra, order in cases:
+        data = files_info_bytes(names, es, ef, extra, order)
+        r = reader_on(data + b"\xEE\xEE")
+        got = {}
+        r._build_file_list = lambda *a, **k: got.update(args=a, kw=k)          # capture what the parser hands over
+        try:
+            r._parse_files_info()
+            vals = list(got.get("args", ())) + list(got.get("kw", {}).values())
+            seen_names = next((list(v) for v in vals if isinstance(v, list) and v and all(isinstance(x, str) for x in v)), None if names else [])
+            bools = [list(v) for v in vals if isinstance(v, list) and all(isinstance(x, bool) for x in v) and len(v) == len(names)]
+            obs = None
+            if vals[:1] != [len(names)]:
+                obs = f"num_files = {vals[:1]}"
+            elif seen_names != names:
+                obs = f"names = {seen_names!r}"
+            elif es not in bools or (any(ef) and ef not in bools):
+                obs = f"EmptyStream / EmptyFile vectors = {bools}"
+            elif r._stream.tell() != len(data):
+                obs = f"section ends at {len(data)}, parser stopped at {r._stream.tell()}"
+        except Exception as e:  # noqa
+            obs = f"{type(e).__name__}: {e}"
+        if obs:
+            return {"target": "sevenzip.py::SevenZipReader._parse_files_info", "inputs": {"section_hex": data.hex() if len(data) < 600 else f"{len(data)} bytes",
+                                                                                       "names": names, "empty_streams": es, "empty_files": ef},
+                    "expected": "num_files, names, EmptyStream and EmptyFile vectors of the section are handed to _build_file_list; position after the END marker",
+                    "observed": obs}
+    return None
+
+
+def check_7z_large_solid():
+    """a solid LZMA2 folder larger than common window sizes, written with a 32 MiB dictionary (7-Zip: 16 MiB at -mx=5, 64 MiB at -mx=9),
+    whose last member repeats the beginning of the first one (a match reaching back > 8 MiB): every member's own bytes come out"""
+    import random
+    import tempfile
+    from sharepoint2text.parsing.extractors.util.sevenzip import SevenZipReader
+    rnd = random.Random(1010)
+    first = rnd.randbytes(4_700_000)
+    entries = [("big/a.bin", first), ("big/b.bin", rnd.randbytes(4_700_000)), ("big/c.bin", first[:300_000] + b"tail")]
+    cache = os.path.join(os.path.dirname(os.path.dirname(os.path.abspath(__file__))), "out", "cache", "c10_large_solid_v1.7z")
+    data = None
+    if os.path.exists(cache):                       # the archive is deterministic; compressing it takes ~5 s, reading it back none
+        raw = open(cache, "rb").read()
+        data = raw[:-4] if len(raw) > 36 and zlib.crc32(raw[32:-4]) == struct.unpack("<I", raw[-4:])[0] else None
+    if data is None:
+        data = write7z(entries, "lzma2:26", True, with_crc=False)
+        try:
+            os.makedirs(os.path.dirname(cache), exist_ok=True)
+            open(cache, "wb").write(data + struct.pack("<I", zlib.crc32(data[32:])))
+        except OSError:
+            pass
+    obs = None
+    try:
+        rd = SevenZipReader(io.BytesIO(data))
+        with tempfile.TemporaryDirectory() as td:
+            rd.extractall(td)
+            for n, d in entries:
+                b = open(os.path.join(td, n), "rb").read() if os.path.exists(os.path.join(td, n)) else None
+                if b != d:
+                    obs = f"member {n!r}: extracted {None if b is None else len(b)} bytes, archive holds {len(d)} bytes (content differs)"
+                    break
+    except Exception as e:  # noqa
+        obs = f"{type(e).__name__}: {e}"
+    if obs:
+        return {"target": "sevenzip.py::SevenZipReader (extractall, LZMA2)", "inputs": {"layout": "7z one solid LZMA2 folder, property byte 26 (32 MiB dictionary)",
+                                                                                    "members": [[n, f"{len(d)} bytes"] for n, d in entries],
+                                                                                    "note": "c.bin repeats the first 300000 bytes of a.bin, 9.4 MB earlier"},
+                "expected": "every member extracted with its own bytes", "observed": obs}
+    return None
+
+
 # ------------------------------------------------------------------ findings --
 def finding(fid):
     if fid == "F10-one-folder-per-file":
@@ -518,14 +662,18 @@ def find(req):
         return r
     ob = req.get("obligation", "") or ""
     checks = []
-    ALL = [check_read_number, check_bool_vector, check_bool_vector_defined, check_pack_info, check_detect, check_7z_bytes,
-           check_tar_member_read_failure, matrix]
+    ALL = [check_read_number, check_bool_vector, check_bool_vector_defined, check_pack_info, check_files_info, check_detect, check_7z_bytes,
+           check_tar_member_read_failure, matrix, check_7z_large_solid]
     if "native-scope" in ob:
         checks = ALL
     elif "_read_number" in ob or "_read_uint" in ob or "_read_bytes" in ob:
         checks = [check_read_number]
     elif "_read_boolean_vector" in ob:
         checks = [check_bool_vector, check_bool_vector_defined]
+    elif "_parse_files_info" in ob:
+        checks = [check_files_info, check_7z_bytes, lambda: matrix(lambda l: l.startswith("7z"))]
+    elif "_decompress_lzma" in ob or "_apply_decoder" in ob:
+        checks = [check_7z_bytes, check_7z_large_solid, lambda: matrix(lambda l: l.startswith("7z"))]
     elif "_parse_pack_info" in ob:
         checks = [check_pack_info, check_7z_bytes, lambda: matrix(lambda l: l.startswith("7z"))]
     elif "extractall" in ob or "_decompress_folder" in ob:
